@@ -107,6 +107,19 @@ def rule_segments(ctx):
                 skipped.add("")
         ctx.ob("GRAMMAR", "%s: raw segments skipped = %s" % (comp, sorted(want_skip)), skipped == want_skip, fn=key, site=e["site"], detail="skipped: %s" % sorted(skipped))
         ctx.ob("DECODE-ALL", "each %s segment passes through the strict decoder after the split" % comp, reg == faults.SEGD, fn=key, site=e["site"], detail=show_region(reg))
+        # the only successful result is the text that loop built: a second `Ok(..)` (a shortcut returning the input as it
+        # is) would hand out segments that were neither skipped nor decoded
+        oks = [r for r in bs["returns"] if r["cls"][0] == "ok"]
+        okacc = False
+        det = "; ".join(nshow(r["cls"][1])[:60] for r in oks)
+        if len(oks) == 1:
+            pay = oks[0]["cls"][1]
+            while pay[0] == "conv":
+                pay = pay[1]
+            if pay[0] == "var" and len(pay) > 2:
+                init = pay[2]
+                okacc = e["target"][:2] == ("var", pay[1]) and init[0] == "call" and init[1].split("::")[-1] in ("new", "default", "with_capacity") and all(x[0] != "arg" for x in init[2])
+        ctx.ob("GRAMMAR", "%s: the decoder succeeds only with the text its segment loop built (started empty)" % comp, okacc, fn=key, site=oks[0]["site"] if oks else body.site(0), detail=det)
 
 
 def rule_qloop(ctx):
@@ -246,7 +259,7 @@ def rule_qm(ctx):
 
 RULES = [
     ("QM-INV", rule_qm, 25),
-    ("GRAMMAR", lambda ctx: (rule_grammar(ctx), rule_segments(ctx), rule_qloop(ctx)), 13),
+    ("GRAMMAR", lambda ctx: (rule_grammar(ctx), rule_segments(ctx), rule_qloop(ctx)), 14),
     ("DECODE-ALL", lambda ctx: None, 4),
     ("ALPHABET", rule_alphabet, 2),
     ("REJECT-COMPLETE", rule_reject_complete, 20),
